@@ -132,6 +132,7 @@ class InterpBase:
         self.default_factories: Dict[str, Any] = {}
         self.counter_info: Dict[str, Any] = {}  # Counter allocation -> (counted sequence, exact groups or None)
         self.number_locals: bool = False
+        self.open_cmps: list = []  # explicit mode: comparisons between two terms that the abstract state could not decide
         self.explicit: bool = False  # runs on small explicit inputs: pair enumerations and chunkings of listed sequences stay listed, longer unrolling
         self.pos_tagger = None  # rule-supplied: provenance tags for position values (which dimension a position ranges over)
         self.class_store: Dict[Tuple[str, str], Any] = {}  # class attributes set at class creation / written later
